@@ -274,7 +274,7 @@ c10_open_scan!(c10_open_same_then_scan, T_C_F, fresh_c_f, T_C_G, fresh_c_g);
 /// @harness id=c10_open_then_scan_empty_disk props=C10 tier=quick unwind=18 mem=10 cap=1500 gates=seed unwindset=find_inner:3;memchr_seq:400;rec~ParseErrorType:3;rec~LexicalErrorType:3;rec~FStringErrorType:3;rec~drop_glue::<std::io::Error:3;memchr_bytewise:64;sip:48;next_match:40
 /// didOpen with buffer C_F_MOVED (seeded: definitions f, g and a usage), then the scan worker reaches the file whose
 /// DISK content is empty (real analyze_file_fresh): the index must still describe the buffer, exactly once; a further
-/// change notification (comment-only text) must leave exactly the single-analysis state.
+/// change notification (whose text equals the disk text) must leave exactly the single-analysis state.
 hist_arm!(c10_open_then_scan_empty_disk, {
     let db = FixtureDatabase::new();
     let opened = fresh_c_f_moved(PC);
@@ -285,8 +285,10 @@ hist_arm!(c10_open_then_scan_empty_disk, {
     } else {
         check!("c10.open_then_scan.buffer_exactly_once", file_state_is(&db, PC, &opened, true));
     }
-    db.analyze_file(PathBuf::from(PC), T_C_COMMENT);
-    let want2 = fresh_c_comment(PC);
+    // the further change notification carries the text the scan left in file_cache (the DISK text, here empty):
+    // an "unchanged content" shortcut must not swallow it
+    db.analyze_file(PathBuf::from(PC), T_C_EMPTY);
+    let want2 = fresh_c_empty(PC);
     check!("c10.open_then_scan.next_change_restores", file_state_is(&db, PC, &want2, true));
     reach!("c10.open_then_scan.end");
     std::mem::forget(opened); std::mem::forget(want2); std::mem::forget(db);
